@@ -10,3 +10,65 @@ Proof.
   unfold match_any, zip_match_any, hash_match_any.
   repeat split; destruct (_ <=? _); reflexivity.
 Qed.
+
+(* ---------- literals: what the Go source says today ---------- *)
+Lemma fr_lits : fr_s0 = 32 /\ fr_s1 = 32 /\ fr_s2 = 32 /\ fr_s3 = 32 /\ fr_s4 = 32.
+Proof. repeat split; reflexivity. Qed.
+
+Lemma shift_lits :
+  build_nbits = 32 /\ build_pmax = 32 /\ build_hshift = 32 /\ frombytes_pmax = 32 /\ fromn_nbits = 32 /\
+  match_hshift = 32 /\ zip_hshift = 32 /\ hash_hshift = 32 /\ any_div = 2 /\ hint_mul = 8 /\ hint_add = 1.
+Proof. repeat split; reflexivity. Qed.
+
+(* ---------- fastReduction ---------- *)
+Lemma mul32_lt a b : a < two32 -> b < two32 -> a * b < two64.
+Proof. unfold two32, two64. intros. nia. Qed.
+
+Lemma fast_reduction_halves a b c d :
+  a < two32 -> b < two32 -> c < two32 -> d < two32 ->
+  fast_reduction (a * two32 + b) c d = ((a * two32 + b) * (c * two32 + d)) / two64.
+Proof.
+  intros Ha Hb Hc Hd.
+  unfold fast_reduction. destruct fr_lits as (-> & -> & -> & -> & ->).
+  rewrite !N.shiftr_div_pow2. change (2 ^ 32) with two32.
+  assert (Ea : (a * two32 + b) / two32 = a) by (unfold two32 in *; lia).
+  assert (Eb : lo32 (a * two32 + b) = b) by (unfold lo32, two32 in *; lia).
+  rewrite Ea, Eb.
+  pose proof (mul32_lt a c Ha Hc) as Hac. pose proof (mul32_lt a d Ha Hd) as Had.
+  pose proof (mul32_lt c b Hc Hb) as Hcb. pose proof (mul32_lt b d Hb Hd) as Hbd.
+  replace ((a * two32 + b) * (c * two32 + d)) with (a * c * two64 + (a * d + c * b) * two32 + b * d)
+    by (unfold two64, two32; ring).
+  assert (Hac' : a * c <= 18446744065119617025) by (unfold two32 in *; nia).
+  assert (Had' : a * d <= 18446744065119617025) by (unfold two32 in *; nia).
+  assert (Hcb' : c * b <= 18446744065119617025) by (unfold two32 in *; nia).
+  assert (Hbd' : b * d <= 18446744065119617025) by (unfold two32 in *; nia).
+  generalize dependent (a * c). generalize dependent (a * d).
+  generalize dependent (c * b). generalize dependent (b * d).
+  intros bd _ Hbd cb _ Hcb ad _ Had ac _ Hac.
+  unfold w64, lo32, two64, two32 in *.
+  lia.
+Qed.
+
+Theorem fast_reduction_spec v n :
+  v < two64 -> n < two64 ->
+  fast_reduction v (N.shiftr n 32) (lo32 n) = v * n / two64.
+Proof.
+  intros Hv Hn.
+  rewrite N.shiftr_div_pow2. change (2 ^ 32) with two32.
+  pose proof (N.div_mod v two32) as Ev. pose proof (N.div_mod n two32) as En.
+  assert (Hvh : v / two32 < two32) by (unfold two32, two64 in *; lia).
+  assert (Hnh : n / two32 < two32) by (unfold two32, two64 in *; lia).
+  assert (Hvl : v mod two32 < two32) by (unfold two32; lia).
+  assert (Hnl : n mod two32 < two32) by (unfold two32; lia).
+  pose proof (fast_reduction_halves (v / two32) (v mod two32) (n / two32) (n mod two32) Hvh Hvl Hnh Hnl) as H.
+  replace (v / two32 * two32 + v mod two32) with v in H by (unfold two32 in *; lia).
+  replace (n / two32 * two32 + n mod two32) with n in H by (unfold two32 in *; lia).
+  exact H.
+Qed.
+
+Lemma fast_reduction_lt v n : v < two64 -> n < two64 -> 0 < n ->
+  fast_reduction v (N.shiftr n 32) (lo32 n) < n.
+Proof.
+  intros Hv Hn Hpos. rewrite fast_reduction_spec by assumption.
+  apply N.div_lt_upper_bound; [unfold two64; lia|]. unfold two64 in *. nia.
+Qed.
